@@ -23,6 +23,10 @@ def run(tier, replay=None):
         out.add_tlc(r1)
         out.add_tlc(r2)
         texts = [c["text"] for c in r1.tagged("CASE")] + [c["text"] for c in r2.tagged("CASE") if c["shape"] == "forced"]
+        bres = tlc_generate("Gen_Blocks", cfg="Gen_Blocks", heap="6g")
+        out.add_tlc(bres[1])
+        bl = [c["text"] for c in bres[0]]
+        texts += bl if tier == "thorough" else [t for i, t in enumerate(bl) if i % 6 == seed() % 6]
         texts += list(corpus.all_programs().values()) + corpus.VALUE_PROGRAMS + corpus.LOOP_PROGRAMS
         texts = list(dict.fromkeys(texts))
     hc = [{"id": i + 1, "mode": "stable", "text": t, "histories": hists} for i, t in enumerate(texts)]
